@@ -75,7 +75,7 @@ Proof.
     assert (G : forall w, isC w = 0%nat -> (cnt (upd (watchers s) id w) + 1 = cnt (watchers s))%nat).
     { intros w Hw. pose proof (cnt_upd (watchers s) id w {| w_pc := WExit; w_pool := 0%nat |} Hr') as X.
       unfold watcher_of in HC. rewrite HC in X. lia. }
-    destruct (negb (obj_epoch s (pool_of s id) =? obj_epoch s (w_pool (watcher_of s id)))).
+    destruct (negb (pool_of s id =? w_pool (watcher_of s id))%nat).
     { cbn [created watchers closed set_watcher]. split; [exact Hc|]. pose proof (G {| w_pc := WTop; w_pool := w_pool (watcher_of s id) |} eq_refl). lia. }
     destruct (negb ok).
     { cbn [created watchers closed set_watcher]. split; [exact Hc|]. pose proof (G {| w_pc := WWait; w_pool := w_pool (watcher_of s id) |} eq_refl). lia. }
@@ -187,7 +187,7 @@ Lemma heal_fail : forall s id, Lost s id WCompare ->
   Lost s' id WWait /\ r_state s' = r_state s /\ created s' = created s /\ bad s' = bad s /\ objs s' = objs s.
 Proof.
   intros s id L. pose proof L as [Hr Ho Hp Hpool Hobj]. unfold r_step. cbn [r_enabled].
-  rewrite Hr, Hp. cbn [andb]. cbn [r_apply]. rewrite Hpool, Z.eqb_refl. cbn [negb].
+  rewrite Hr, Hp. cbn [andb]. cbn [r_apply]. rewrite Hpool, Nat.eqb_refl. cbn [negb].
   rewrite <- Hpool at 1 2.
   split; [apply (lost_set s id WCompare WWait L) | cbn; auto].
 Qed.
@@ -198,12 +198,12 @@ Lemma heal_ok : forall s id, Lost s id WCompare ->
   obj_epoch s' (pool_of s' id) = r_epoch s.
 Proof.
   intros s id L. pose proof L as [Hr Ho Hp Hpool Hobj]. unfold r_step. cbn [r_enabled].
-  rewrite Hr, Hp. cbn [andb]. cbn [r_apply]. rewrite Hpool, Z.eqb_refl. cbn [negb].
+  rewrite Hr, Hp. cbn [andb]. cbn [r_apply]. rewrite Hpool, Nat.eqb_refl. cbn [negb].
   destruct (nth_error (objs s) (pool_of s id)) as [p|] eqn:Hn.
   2:{ apply nth_error_None in Hn. lia. }
   unfold get_stream_r, obj_alive, obj_epoch, pool_of, watcher_of. cbn.
   rewrite (nth_error_upd_same _ _ _ _ _ Hn). cbn.
-  rewrite Nat.eqb_refl.
+  try rewrite Nat.eqb_refl.
   rewrite nth_upd_same by (unfold in_range in Hr; apply Nat.ltb_lt; exact Hr). cbn. auto.
 Qed.
 
@@ -244,246 +244,229 @@ Proof.
   - destruct (r_enabled s (WakeClose id)); [|auto]. cbn [r_apply]. rewrite Hs, Z.eqb_refl. cbn. auto.
 Qed.
 
-(* ------------------------------------------------------------------ C17_not_twice: the guard *)
-Theorem guard_distinct : forall s id ok,
+(* ------------------------------------------------------------------ C17_not_twice *)
+(* the guard (identity of the pool object): a watcher whose pool object is no longer sm.pools[id]
+   creates nothing and touches no pool, whatever the epochs are *)
+Theorem guard_swapped : forall s id ok,
   in_range s id = true -> w_pc (watcher_of s id) = WCompare ->
-  obj_epoch s (pool_of s id) <> obj_epoch s (w_pool (watcher_of s id)) ->
+  pool_of s id <> w_pool (watcher_of s id) ->
   let s' := r_step s (Compare id ok) in
   created s' = created s /\ objs s' = objs s /\ pools s' = pools s /\ bad s' = bad s /\ w_pc (watcher_of s' id) = WTop.
 Proof.
   intros s id ok Hr Hp Hne. unfold r_step. cbn [r_enabled]. rewrite Hr, Hp. cbn [andb r_apply].
-  apply Z.eqb_neq in Hne. rewrite Hne. cbn [negb]. cbn. repeat split; auto.
+  apply Nat.eqb_neq in Hne. rewrite Hne. cbn [negb]. cbn. repeat split; auto.
   unfold watcher_of. cbn. rewrite nth_upd_same by (unfold in_range in Hr; apply Nat.ltb_lt; exact Hr). reflexivity.
 Qed.
 
-(* equal epochs: HotRestart(0) on a manager whose sessions have epoch 0.  After the hand-over the old
-   server lets go, the watcher (still holding the parked pool object) finds the epochs equal and dials:
-   the new session is stored into the PARKED object *)
+(* every step leaves the ghost counter of rebuilds into a stale pool object unchanged *)
+Lemma step_bad : forall s ev, bad (r_step s ev) = bad s.
+Proof.
+  intros s ev. unfold r_step. destruct (r_enabled s ev); [|reflexivity].
+  destruct ev; cbn [r_apply]; try reflexivity.
+  - destruct (r_state s =? st_hr); reflexivity.
+  - destruct (r_state s =? st_hr); reflexivity.
+  - destruct (negb (pool_of s id =? w_pool (watcher_of s id))%nat) eqn:Hc; [reflexivity|].
+    destruct (negb ok); [reflexivity|].
+    destruct (nth_error (objs s) (w_pool (watcher_of s id))); [|reflexivity].
+    cbn. apply negb_false_iff in Hc. apply Nat.eqb_eq in Hc. rewrite Hc, Nat.eqb_refl. reflexivity.
+  - apply hr_event_frame.
+  - destruct (count_some (reserve s) =? length (pools s))%nat; reflexivity.
+Qed.
+
+Theorem not_twice_full : forall n evs, bad (r_run evs (r_init n)) = 0%nat.
+Proof.
+  intros n evs. apply (r_run_inv (fun s => bad s = 0%nat)); [|reflexivity].
+  intros s ev H. rewrite step_bad. exact H.
+Qed.
+
+(* a session created by a watcher goes into the pool object that is sm.pools[id] at that moment *)
+Theorem rebuild_into_current : forall s id ok,
+  created (r_step s (Compare id ok)) = S (created s) -> w_pool (watcher_of s id) = pool_of s id.
+Proof.
+  intros s id ok. unfold r_step. destruct (r_enabled s (Compare id ok)); [|intro X; exfalso; lia].
+  cbn [r_apply].
+  destruct (negb (pool_of s id =? w_pool (watcher_of s id))%nat) eqn:Hc; [cbn; intro X; exfalso; lia|].
+  intros _. apply negb_false_iff in Hc. apply Nat.eqb_eq in Hc. congruence.
+Qed.
+
+(* the former witness: HotRestart(0) on a manager whose sessions have epoch 0, then the old server lets
+   go — the watcher (still holding the parked pool object) no longer dials *)
 Definition equal_epoch_history : list revent :=
   [WLoad 0; HREvent 0 0 true; HRTick; SessionLost 0; WakeClose 0; TimerFires 0; Compare 0 true].
 
-Theorem not_twice_refuted : ~ (forall n evs, bad (r_run evs (r_init n)) = 0%nat).
+(* ------------------------------------------------------------------ Close: termination and finality *)
+Definition alive_of (os : list pobj) (o : nat) : bool :=
+  match nth_error os o with Some p => o_alive p | None => false end.
+
+Lemma kill_obj_length : forall os o, length (kill_obj os o) = length os.
+Proof. intros. unfold kill_obj. destruct (nth_error os o); [apply upd_length | reflexivity]. Qed.
+
+Lemma kill_reserved_length : forall rs os, length (kill_reserved rs os) = length os.
+Proof. induction rs as [|[o|] r IH]; intro os; cbn; auto. rewrite IH. apply kill_obj_length. Qed.
+
+Lemma kill_obj_alive : forall os o x, alive_of (kill_obj os o) x = alive_of os x && negb (x =? o)%nat.
 Proof.
-  intro H. specialize (H 1%nat equal_epoch_history). vm_compute in H. discriminate.
+  intros os o x. unfold kill_obj, alive_of. destruct (nth_error os o) as [p|] eqn:Hp.
+  - destruct (Nat.eq_dec o x) as [->|Hne].
+    + rewrite (nth_error_upd_same _ _ _ _ _ Hp), Nat.eqb_refl. cbn. rewrite andb_false_r. reflexivity.
+    + rewrite (nth_error_upd_other _ _ _ _ _ Hne).
+      assert ((x =? o)%nat = false) as -> by (apply Nat.eqb_neq; congruence). rewrite andb_true_r. reflexivity.
+  - destruct (Nat.eq_dec o x) as [->|Hne].
+    + rewrite Hp. reflexivity.
+    + assert ((x =? o)%nat = false) as -> by (apply Nat.eqb_neq; congruence). rewrite andb_true_r. reflexivity.
 Qed.
 
-(* ------------------------------------------------------------------ C17_not_twice: all histories *)
-(* a swap is "fresh" if the epoch in force differs from the epoch of the session the pool's watcher
-   holds (trivially so for an event the manager ignores, or a watcher that holds nothing) *)
-Definition fresh (s : rstate) (ev : revent) : bool :=
-  match ev with
-  | HREvent i e ok =>
-      ((r_state s =? st_hr) && negb (r_epoch s =? e))
-      || match w_pc (watcher_of s i) with WTop => true | _ => false end
-      || negb (obj_epoch s (w_pool (watcher_of s i)) =? e)
-  | _ => true
-  end.
-
-Fixpoint run_fresh (evs : list revent) (s : rstate) : Prop :=
-  match evs with
-  | [] => True
-  | ev :: r => fresh s ev = true /\ run_fresh r (r_step s ev)
-  end.
-
-Definition oslot (os : list pobj) (o : nat) : option nat := option_map o_slot (nth_error os o).
-Definition oepoch (os : list pobj) (o : nat) : Z := match nth_error os o with Some p => o_epoch p | None => -1 end.
-
-Lemma obj_epoch_oepoch : forall s o, obj_epoch s o = oepoch (objs s) o.
-Proof. reflexivity. Qed.
-
-Lemma kill_obj_meta : forall os o x, oslot (kill_obj os o) x = oslot os x /\ oepoch (kill_obj os o) x = oepoch os x.
+Lemma kill_reserved_alive_le : forall rs os x, alive_of (kill_reserved rs os) x = true -> alive_of os x = true.
 Proof.
-  intros os o x. unfold kill_obj. destruct (nth_error os o) as [p|] eqn:Hp; [|auto].
-  unfold oslot, oepoch. destruct (Nat.eq_dec o x) as [->|Hne].
-  - rewrite (nth_error_upd_same _ _ _ _ _ Hp), Hp. cbn. auto.
-  - rewrite (nth_error_upd_other _ _ _ _ _ Hne). auto.
+  induction rs as [|[o|] r IH]; intros os x H; cbn in H; auto.
+  apply IH in H. rewrite kill_obj_alive in H. apply andb_prop in H. apply H.
 Qed.
 
-Lemma kill_reserved_meta : forall rs os x,
-  oslot (kill_reserved rs os) x = oslot os x /\ oepoch (kill_reserved rs os) x = oepoch os x.
+Lemma kill_reserved_dead : forall rs os x, In (Some x) rs -> alive_of (kill_reserved rs os) x = false.
 Proof.
-  induction rs as [|[o|] r IH]; intros os x; cbn; auto.
-  destruct (IH (kill_obj os o) x) as [A B]. destruct (kill_obj_meta os o x) as [C D]. split; congruence.
+  induction rs as [|[o|] r IH]; intros os x Hin; cbn in *; [contradiction| |].
+  - destruct Hin as [E|Hin]; [|apply IH; exact Hin].
+    inversion E; subst. destruct (alive_of (kill_reserved r (kill_obj os x)) x) eqn:A; [|reflexivity].
+    apply kill_reserved_alive_le in A. rewrite kill_obj_alive, Nat.eqb_refl, andb_false_r in A. discriminate.
+  - destruct Hin as [E|Hin]; [discriminate | apply IH; exact Hin].
 Qed.
 
-Lemma oslot_range : forall os o k, oslot os o = Some k -> (o < length os)%nat.
+(* the state SessionManager.Close leaves behind: every watcher returned, every pool's session closed,
+   nothing parked *)
+Record Quiesced (s : rstate) : Prop := {
+  q_exited : all_exited s;
+  q_pools : forall i, (i < length (pools s))%nat -> obj_alive s (pool_of s i) = false;
+  q_reserve : Forall (fun r => r = None) (reserve s) }.
+
+Theorem close_end_quiesces : forall s, r_enabled s CloseEnd = true -> Quiesced (r_step s CloseEnd).
 Proof.
-  intros os o k H. unfold oslot in H. destruct (nth_error os o) eqn:E; [|discriminate].
-  apply nth_error_Some. congruence.
+  intros s He. unfold r_step. rewrite He. cbn [r_enabled] in He. apply andb_prop in He. destruct He as [_ Hx].
+  cbn [r_apply]. constructor; cbn.
+  - unfold all_exited. rewrite forallb_forall in Hx. apply Forall_forall. intros w Hw.
+    specialize (Hx w Hw). destruct (w_pc w); try discriminate. reflexivity.
+  - intros i Hi. unfold obj_alive, pool_of. cbn.
+    change (alive_of (kill_reserved (reserve s) (kill_reserved (map Some (pools s)) (objs s))) (nth i (pools s) 0%nat) = false).
+    destruct (alive_of (kill_reserved (reserve s) (kill_reserved (map Some (pools s)) (objs s))) (nth i (pools s) 0%nat)) eqn:A; [|reflexivity].
+    apply kill_reserved_alive_le in A.
+    rewrite kill_reserved_dead in A; [discriminate|]. apply in_map. apply nth_In. exact Hi.
+  - apply Forall_repeat. reflexivity.
 Qed.
 
-Lemma meta_app : forall os p x, (x < length os)%nat ->
-  oslot (os ++ [p]) x = oslot os x /\ oepoch (os ++ [p]) x = oepoch os x.
-Proof. intros. unfold oslot, oepoch. rewrite nth_error_app1 by assumption. auto. Qed.
-
-Lemma meta_app_new : forall os p, oslot (os ++ [p]) (length os) = Some (o_slot p) /\ oepoch (os ++ [p]) (length os) = o_epoch p.
-Proof. intros. unfold oslot, oepoch. rewrite nth_error_app2 by lia. rewrite Nat.sub_diag. cbn. auto. Qed.
-
-Record WF (s : rstate) : Prop := {
-  wf_len : length (watchers s) = length (pools s);
-  wf_pools : forall id, (id < length (pools s))%nat -> oslot (objs s) (pool_of s id) = Some id;
-  wf_watch : forall id, (id < length (pools s))%nat -> w_pc (watcher_of s id) <> WTop ->
-             oslot (objs s) (w_pool (watcher_of s id)) = Some id /\
-             (w_pool (watcher_of s id) = pool_of s id \/
-              oepoch (objs s) (w_pool (watcher_of s id)) <> oepoch (objs s) (pool_of s id));
-  wf_bad : bad s = 0%nat }.
-
-Lemma wf_init : forall n, WF (r_init n).
+Lemma quiesced_step : forall s ev, Quiesced s ->
+  Quiesced (r_step s ev) /\ created (r_step s ev) = created s /\ length (objs (r_step s ev)) = length (objs s).
 Proof.
-  intro n. constructor; cbn.
-  - rewrite repeat_length, seq_length. reflexivity.
-  - intros id Hid. rewrite seq_length in Hid. unfold pool_of, oslot. cbn.
-    rewrite seq_nth by exact Hid. cbn.
-    rewrite nth_error_map. rewrite (nth_error_nth _ (seq 0 n) id 0%nat) by (rewrite seq_length; exact Hid).
-    rewrite seq_nth by exact Hid. reflexivity.
-  - intros id Hid Hpc. exfalso. apply Hpc. unfold watcher_of. cbn.
-    rewrite seq_length in Hid. clear Hpc. revert id Hid. induction n; intros [|id] H; cbn; try lia; auto. apply IHn. lia.
-  - reflexivity.
-Qed.
-
-(* same heap metadata, same tables: WF carries over *)
-Lemma wf_same_meta : forall s s',
-  pools s' = pools s -> watchers s' = watchers s -> bad s' = bad s ->
-  (forall x, oslot (objs s') x = oslot (objs s) x /\ oepoch (objs s') x = oepoch (objs s) x) ->
-  WF s -> WF s'.
-Proof.
-  intros s s' Hp Hw Hb Hm [L P W B]. unfold pool_of, watcher_of in *.
-  constructor; unfold pool_of, watcher_of; rewrite ?Hp, ?Hw, ?Hb; auto.
-  - intros id Hid. destruct (Hm (nth id (pools s) 0%nat)) as [A _]. rewrite A. auto.
-  - intros id Hid Hpc. destruct (W id Hid Hpc) as [W1 W2].
-    destruct (Hm (w_pool (nth id (watchers s) {| w_pc := WExit; w_pool := 0%nat |}))) as [A A'].
-    destruct (Hm (nth id (pools s) 0%nat)) as [_ B'].
-    rewrite A, A', B'. auto.
-Qed.
-
-Lemma wf_set_watcher : forall s id w, WF s -> (id < length (pools s))%nat ->
-  (w_pc w <> WTop -> oslot (objs s) (w_pool w) = Some id /\
-                     (w_pool w = pool_of s id \/ oepoch (objs s) (w_pool w) <> oepoch (objs s) (pool_of s id))) ->
-  WF (set_watcher s id w).
-Proof.
-  intros s id w [L P W B] Hid Hw. constructor; cbn.
-  - rewrite upd_length. exact L.
-  - exact P.
-  - intros j Hj Hpc. unfold watcher_of in *. cbn in *. destruct (Nat.eq_dec id j) as [->|Hne].
-    + rewrite nth_upd_same in * by lia. apply Hw. exact Hpc.
-    + rewrite nth_upd_other in * by exact Hne. apply W; assumption.
-  - exact B.
-Qed.
-
-Lemma step_wf : forall s ev, WF s -> fresh s ev = true -> WF (r_step s ev).
-Proof.
-  intros s ev H Hf. unfold r_step. destruct (r_enabled s ev) eqn:He; [|exact H].
-  pose proof H as [L P W B].
-  assert (RNG : forall id, in_range s id = true -> (id < length (pools s))%nat).
-  { intros id Hr. unfold in_range in Hr. apply Nat.ltb_lt in Hr. lia. }
-  (* a watcher that keeps its pool object and had a pc different from WTop *)
-  assert (KEEP : forall id pc', (id < length (pools s))%nat -> w_pc (watcher_of s id) <> WTop ->
-                 WF (set_watcher s id {| w_pc := pc'; w_pool := w_pool (watcher_of s id) |})).
-  { intros id pc' Hid Hpc. apply wf_set_watcher; auto. cbn. intros _. apply W; assumption. }
-  destruct ev; cbn [r_apply]; cbn [r_enabled] in He.
-  - (* WLoad *) apply andb_prop in He. destruct He as [Hr _].
-    destruct (r_state s =? st_hr); [exact H|]. apply wf_set_watcher; auto. cbn. intros _. split; [apply P; auto | left; reflexivity].
-  - (* WakeClose *) apply andb_prop in He. destruct He as [He _]. apply andb_prop in He. destruct He as [Hr Hpc].
-    assert (w_pc (watcher_of s id) <> WTop) by (destruct (w_pc (watcher_of s id)); discriminate).
-    destruct (r_state s =? st_hr); apply KEEP; auto.
-  - (* WakeCtx *) apply andb_prop in He. destruct He as [He Hpc]. apply andb_prop in He. destruct He as [Hr _].
-    assert (w_pc (watcher_of s id) <> WTop) by (destruct (w_pc (watcher_of s id)); discriminate).
-    apply KEEP; auto.
-  - (* TimerFires *) apply andb_prop in He. destruct He as [He Hpc]. apply andb_prop in He. destruct He as [Hr _].
-    assert (w_pc (watcher_of s id) <> WTop) by (destruct (w_pc (watcher_of s id)); discriminate).
-    apply KEEP; auto.
-  - (* Compare *) apply andb_prop in He. destruct He as [Hr Hpc].
-    assert (Hnt : w_pc (watcher_of s id) <> WTop) by (destruct (w_pc (watcher_of s id)); discriminate).
-    pose proof (RNG id Hr) as Hid.
-    destruct (negb (obj_epoch s (pool_of s id) =? obj_epoch s (w_pool (watcher_of s id)))) eqn:Hcmp; [apply KEEP; auto|].
-    destruct (negb ok); [apply KEEP; auto|].
-    destruct (nth_error (objs s) (w_pool (watcher_of s id))) as [p|] eqn:Hp; [|apply KEEP; auto].
-    apply negb_false_iff in Hcmp. apply Z.eqb_eq in Hcmp. rewrite !obj_epoch_oepoch in Hcmp.
-    destruct (W id Hid Hnt) as [Wslot Wdis].
-    assert (Heq : w_pool (watcher_of s id) = pool_of s id) by (destruct Wdis as [E|E]; [exact E | congruence]).
-    set (o := w_pool (watcher_of s id)) in *.
-    set (p' := {| o_epoch := r_epoch s; o_alive := true; o_slot := o_slot p; o_by := 2 |}).
-    assert (SL : forall x, oslot (upd (objs s) o p') x = oslot (objs s) x).
-    { intro x. unfold oslot. destruct (Nat.eq_dec o x) as [<-|Hne].
-      - rewrite (nth_error_upd_same _ _ _ _ _ Hp), Hp. reflexivity.
-      - rewrite (nth_error_upd_other _ _ _ _ _ Hne). reflexivity. }
-    assert (EP : forall x, x <> o -> oepoch (upd (objs s) o p') x = oepoch (objs s) x).
-    { intros x Hne. unfold oepoch. rewrite nth_error_upd_other by congruence. reflexivity. }
-    constructor; cbn.
-    + rewrite upd_length. exact L.
-    + intros j Hj. unfold pool_of. cbn. rewrite SL. apply P. exact Hj.
-    + intros j Hj Hpcj. unfold watcher_of, pool_of in *. cbn in *.
-      destruct (Nat.eq_dec id j) as [->|Hne].
-      * rewrite nth_upd_same in Hpcj by lia. cbn in Hpcj. congruence.
-      * rewrite nth_upd_other in * by exact Hne. rewrite SL.
-        destruct (W j Hj Hpcj) as [Ws Wd]. split; [exact Ws|].
-        assert (N1 : w_pool (nth j (watchers s) {| w_pc := WExit; w_pool := 0%nat |}) <> o).
-        { intro X. rewrite X in Ws. unfold watcher_of in Wslot. fold o in Wslot. congruence. }
-        assert (N2 : nth j (pools s) 0%nat <> o).
-        { intro X. pose proof (P j Hj) as Pj. unfold pool_of in Pj. rewrite X in Pj. congruence. }
-        rewrite !EP by assumption. exact Wd.
-    + rewrite Heq. rewrite Nat.eqb_refl. exact B.
+  intros s ev Q. pose proof Q as [Qx Qp Qr].
+  destruct (exited_step s ev Qx) as [Ex Ec].
+  unfold r_step in *. destruct (r_enabled s ev) eqn:He; [|auto].
+  assert (X : forall id, in_range s id = true -> w_pc (watcher_of s id) = WExit).
+  { intros id Hr. unfold in_range in Hr. apply Nat.ltb_lt in Hr. unfold watcher_of.
+    pose proof (nth_error_nth _ (watchers s) id {| w_pc := WExit; w_pool := 0%nat |} Hr) as Hn.
+    apply (Forall_nth_error _ _ _ _ _ Qx Hn). }
+  destruct ev; cbn [r_apply] in *; cbn [r_enabled] in He.
+  - apply andb_prop in He. destruct He as [Hr Hp]. rewrite (X id Hr) in Hp. discriminate.
+  - apply andb_prop in He. destruct He as [He _]. apply andb_prop in He. destruct He as [Hr Hp]. rewrite (X id Hr) in Hp. discriminate.
+  - apply andb_prop in He. destruct He as [He Hp]. apply andb_prop in He. destruct He as [Hr _]. rewrite (X id Hr) in Hp. discriminate.
+  - apply andb_prop in He. destruct He as [He Hp]. apply andb_prop in He. destruct He as [Hr _]. rewrite (X id Hr) in Hp. discriminate.
+  - apply andb_prop in He. destruct He as [Hr Hp]. rewrite (X id Hr) in Hp. discriminate.
   - (* SessionLost *)
-    eapply wf_same_meta with (s := s); cbn; auto. intro x. apply kill_obj_meta.
-  - (* HREvent *)
-    cbn [fresh] in Hf. unfold hr_event.
-    destruct ((r_state s =? st_hr) && negb (r_epoch s =? e)) eqn:Hstale; [exact H|]. cbn [orb] in Hf.
-    set (s1 := if r_state s =? st_hr then s
-               else {| objs := kill_reserved (reserve s) (objs s); pools := pools s;
-                       reserve := repeat None (length (pools s)); r_state := st_hr; r_epoch := e;
-                       closed := closed s; watchers := watchers s; created := created s; bad := bad s |}).
-    assert (S1 : WF s1 /\ pools s1 = pools s /\ watchers s1 = watchers s /\ r_epoch s1 = e /\
-                 (forall x, oepoch (objs s1) x = oepoch (objs s) x)).
-    { subst s1. destruct (r_state s =? st_hr) eqn:Hst.
-      - split; [exact H|]. split; [reflexivity|]. split; [reflexivity|]. split; [|reflexivity].
-        cbn in Hstale. apply negb_false_iff in Hstale. apply Z.eqb_eq in Hstale. exact Hstale.
-      - split; [|split; [reflexivity|split; [reflexivity|split; [reflexivity|]]]].
-        + eapply wf_same_meta with (s := s); cbn; auto. intro x. apply kill_reserved_meta.
-        + intro x. cbn. apply kill_reserved_meta. }
-    destruct S1 as [H1 [Hp1 [Hw1 [He1 Hep1]]]]. clearbody s1.
-    destruct (nth_error (reserve s1) i) as [[o|]|]; try exact H1;
-      (destruct ok; cbn [negb]; [|exact H1]).
-    all: pose proof H1 as [L1 P1 W1 B1];
-      assert (Hi : (i < length (pools s1))%nat) by (rewrite Hp1; apply Nat.ltb_lt; exact He).
-    all: constructor; cbn.
-    all: try (rewrite upd_length; exact L1).
-    all: try exact B1.
-    all: try (intros j Hj; rewrite upd_length in Hj; unfold pool_of; cbn;
-              destruct (Nat.eq_dec i j) as [->|Hne];
-              [ rewrite nth_upd_same by exact Hj; apply meta_app_new
-              | rewrite nth_upd_other by exact Hne; pose proof (P1 j Hj) as Pj; unfold pool_of in Pj;
-                destruct (meta_app (objs s1) (new_obj (r_epoch s1) i 1) _ (oslot_range _ _ _ Pj)) as [A _];
-                rewrite A; exact Pj ]).
-    all: intros j Hj Hpcj; rewrite upd_length in Hj; unfold watcher_of, pool_of in *; cbn in *;
-         destruct (W1 j Hj Hpcj) as [Ws Wd];
-         pose proof (oslot_range _ _ _ Ws) as Rw;
-         destruct (meta_app (objs s1) (new_obj (r_epoch s1) i 1) _ Rw) as [A A'];
-         rewrite A; (split; [exact Ws|]);
-         destruct (Nat.eq_dec i j) as [->|Hne].
-    all: try (rewrite nth_upd_other by exact Hne; pose proof (P1 j Hj) as Pj; unfold pool_of in Pj;
-              destruct (meta_app (objs s1) (new_obj (r_epoch s1) j 1) _ (oslot_range _ _ _ Pj)) as [_ B'];
-              destruct (meta_app (objs s1) (new_obj (r_epoch s1) i 1) _ (oslot_range _ _ _ Pj)) as [_ B''];
-              rewrite A', B''; exact Wd).
-    all: right; rewrite nth_upd_same by exact Hj; rewrite A';
-         destruct (meta_app_new (objs s1) (new_obj (r_epoch s1) j 1)) as [_ N]; rewrite N; cbn;
-         rewrite He1; rewrite Hep1; rewrite Hw1 in *;
-         unfold watcher_of in Hf; rewrite obj_epoch_oepoch in Hf;
-         destruct (w_pc (nth j (watchers s) {| w_pc := WExit; w_pool := 0%nat |})); try congruence;
-         cbn in Hf; apply negb_true_iff in Hf; apply Z.eqb_neq in Hf; exact Hf.
-  - (* HRTick *) destruct (count_some (reserve s) =? length (pools s))%nat; [|exact H].
-    eapply wf_same_meta with (s := s); cbn; auto.
-  - (* HRTimeout *) eapply wf_same_meta with (s := s); cbn; auto. intro x. apply kill_reserved_meta.
-  - eapply wf_same_meta with (s := s); cbn; auto.
-  - eapply wf_same_meta with (s := s); cbn; auto. intro x. apply kill_reserved_meta.
-  - exact H.
+    split; [|split; [reflexivity | cbn; apply kill_obj_length]].
+    constructor; cbn; auto. intros i Hi. specialize (Qp i Hi). unfold obj_alive, pool_of in *. cbn.
+    change (alive_of (kill_obj (objs s) o) (nth i (pools s) 0%nat) = false).
+    rewrite kill_obj_alive. change (alive_of (objs s) (nth i (pools s) 0%nat)) with
+      (match nth_error (objs s) (nth i (pools s) 0%nat) with Some p => o_alive p | None => false end). rewrite Qp. reflexivity.
+  - (* HREvent: no live session can carry it *)
+    exfalso. apply andb_prop in He. destruct He as [Hi Hc]. apply Nat.ltb_lt in Hi.
+    rewrite (Qp i Hi) in Hc. cbn [orb] in Hc.
+    destruct (nth_error (reserve s) i) as [[o|]|] eqn:Hn; try discriminate.
+    pose proof (Forall_nth_error _ _ _ _ _ Qr Hn) as Y. discriminate.
+  - (* HRTick *)
+    destruct (count_some (reserve s) =? length (pools s))%nat; [|auto].
+    split; [|auto]. constructor; cbn; auto.
+  - (* HRTimeout *)
+    split; [|split; [reflexivity | cbn; apply kill_reserved_length]].
+    constructor; cbn; auto.
+    + intros i Hi. specialize (Qp i Hi). unfold obj_alive, pool_of in *. cbn.
+      change (alive_of (kill_reserved (reserve s) (objs s)) (nth i (pools s) 0%nat) = false).
+      destruct (alive_of (kill_reserved (reserve s) (objs s)) (nth i (pools s) 0%nat)) eqn:A; [|reflexivity].
+      apply kill_reserved_alive_le in A. unfold alive_of in A. rewrite Qp in A. discriminate.
+    + apply Forall_repeat. reflexivity.
+  - split; [|auto]. constructor; cbn; auto.
+  - (* CloseEnd again *)
+    split; [|split; [reflexivity | cbn; rewrite !kill_reserved_length; reflexivity]].
+    constructor; cbn; auto.
+    + intros i Hi. specialize (Qp i Hi). unfold obj_alive, pool_of in *. cbn.
+      change (alive_of (kill_reserved (reserve s) (kill_reserved (map Some (pools s)) (objs s))) (nth i (pools s) 0%nat) = false).
+      destruct (alive_of (kill_reserved (reserve s) (kill_reserved (map Some (pools s)) (objs s))) (nth i (pools s) 0%nat)) eqn:A; [|reflexivity].
+      apply kill_reserved_alive_le in A. apply kill_reserved_alive_le in A. unfold alive_of in A. rewrite Qp in A. discriminate.
+    + apply Forall_repeat. reflexivity.
+  - auto.
 Qed.
 
-Theorem not_twice_partial : forall n evs, run_fresh evs (r_init n) -> bad (r_run evs (r_init n)) = 0%nat.
+(* after Close has returned nothing is ever created again — neither by a watcher nor by the hot-restart
+   handler (no pool object is added), over every further history *)
+Theorem close_quiesced_forever : forall evs s, Quiesced s ->
+  Quiesced (r_run evs s) /\ created (r_run evs s) = created s /\ length (objs (r_run evs s)) = length (objs s).
 Proof.
-  intros n evs.
-  assert (G : forall evs s, WF s -> run_fresh evs s -> WF (r_run evs s)).
-  { induction evs0 as [|ev r IH]; intros s Hs Hf; [exact Hs|].
-    change (r_run (ev :: r) s) with (r_run r (r_step s ev)). destruct Hf as [Hf Hr].
-    apply IH; [apply step_wf; assumption | exact Hr]. }
-  intro Hf. apply (wf_bad _ (G evs (r_init n) (wf_init n) Hf)).
+  induction evs as [|ev r IH]; intros s Q; [cbn; auto|].
+  change (r_run (ev :: r) s) with (r_run r (r_step s ev)).
+  destruct (quiesced_step s ev Q) as [Q1 [C1 L1]]. destruct (IH _ Q1) as [Q2 [C2 L2]].
+  split; [exact Q2 | split; congruence].
+Qed.
+
+(* after cancel, outside hotRestartState, every watcher that is not just past its timer has a path of
+   its OWN steps to its return that creates nothing *)
+Definition exit_path (id : nat) (pc : wpc) : list revent :=
+  match pc with WTop => [WLoad id; WakeCtx id] | WSelect | WWait => [WakeCtx id] | _ => [] end.
+
+Theorem close_exit_path : forall s id, closed s = true -> r_state s <> st_hr -> in_range s id = true ->
+  w_pc (watcher_of s id) <> WCompare ->
+  let s' := r_run (exit_path id (w_pc (watcher_of s id))) s in
+  w_pc (watcher_of s' id) = WExit /\ created s' = created s /\ objs s' = objs s.
+Proof.
+  intros s id Hc Hs Hr Hpc. cbn zeta. apply Z.eqb_neq in Hs.
+  assert (CTX : forall t, in_range t id = true -> closed t = true ->
+                (w_pc (watcher_of t id) = WSelect \/ w_pc (watcher_of t id) = WWait) ->
+                w_pc (watcher_of (r_step t (WakeCtx id)) id) = WExit /\
+                created (r_step t (WakeCtx id)) = created t /\ objs (r_step t (WakeCtx id)) = objs t).
+  { intros t Ht Hct Hp. unfold r_step. cbn [r_enabled]. rewrite Ht, Hct.
+    assert (match w_pc (watcher_of t id) with WSelect | WWait => true | _ => false end = true) as ->
+      by (destruct Hp as [-> | ->]; reflexivity).
+    cbn [andb r_apply]. rewrite watcher_of_set by exact Ht. cbn. auto. }
+  destruct (w_pc (watcher_of s id)) eqn:Epc; cbn [exit_path r_run fold_left]; try congruence.
+  - (* WTop *)
+    assert (E1 : r_step s (WLoad id) = set_watcher s id {| w_pc := WSelect; w_pool := pool_of s id |}).
+    { unfold r_step. cbn [r_enabled]. rewrite Hr, Epc. cbn [andb r_apply]. rewrite Hs. reflexivity. }
+    rewrite E1.
+    destruct (CTX (set_watcher s id {| w_pc := WSelect; w_pool := pool_of s id |})) as [A [B C]].
+    + unfold in_range in *. cbn. rewrite upd_length. exact Hr.
+    + exact Hc.
+    + left. rewrite watcher_of_set by exact Hr. reflexivity.
+    + auto.
+  - apply CTX; auto.
+  - apply CTX; auto.
+  - cbn. auto.
+Qed.
+
+(* ... but a watcher that is at its loop head while the manager is in hotRestartState cannot leave by
+   its own steps, cancelled or not: `time.Sleep(500ms); continue` does not look at ctx.  Close waits
+   until the hot restart has ended (C16_exit: its checker is running; the 2 s bound is timer behaviour) *)
+Definition own (id : nat) (ev : revent) : bool :=
+  match ev with
+  | WLoad j | WakeClose j | WakeCtx j | TimerFires j | Compare j _ => Nat.eqb j id
+  | _ => false
+  end.
+
+Theorem close_waits_for_hot_restart : forall evs s id,
+  forallb (own id) evs = true -> r_state s = st_hr -> w_pc (watcher_of s id) = WTop ->
+  r_run evs s = s.
+Proof.
+  induction evs as [|ev r IH]; intros s id Ho Hs Hp; [reflexivity|].
+  cbn [forallb] in Ho. apply andb_prop in Ho. destruct Ho as [Hev Hr].
+  change (r_run (ev :: r) s) with (r_run r (r_step s ev)).
+  assert (E : r_step s ev = s).
+  { unfold r_step. destruct (r_enabled s ev) eqn:He; [|reflexivity].
+    destruct ev; cbn [own] in Hev; try discriminate; apply Nat.eqb_eq in Hev; subst; cbn [r_enabled] in He;
+      rewrite Hp in He; rewrite ?andb_false_r in He; cbn in He; try discriminate.
+    cbn [r_apply]. rewrite Hs, Z.eqb_refl. reflexivity. }
+  rewrite E. apply IH with (id := id); assumption.
 Qed.
